@@ -194,6 +194,22 @@ class Ctx:
                          p.stderr.decode("utf-8", "replace")[-2000:])
         return out
 
+    def witness_hits(self):
+        """KNOWN-FINDING lines: every recorded, unrepaired finding of this property whose witness input still
+        makes the implementation behave as recorded (`reproduces_if`: substrings of the decoded harness output)."""
+        for f in known_for(self.pid):
+            w = f.get("witness", {})
+            if "reproduces_if" not in w:
+                continue
+            arg = w.get("args", "") + (" " if w.get("args") else "") + hx(w["input"]) if "input" in w and "input_hex" not in w else w.get("args", "") + (" " if w.get("args") else "") + w.get("input_hex", "")
+            try:
+                out = self.run_impl(w["cmd"], [arg.strip()])[0]
+            except Broken:
+                continue
+            dec = decode_hex_fields(out)
+            if all(x in dec for x in w["reproduces_if"]) and f not in self.known_hits:
+                self.known_hits.append(f)
+
     # ---------------------------------------------------------------- verdicts
     def add_violation(self, what, replay):
         replay = dict(replay, property=self.pid, what=what, seed=self.seed, tier=self.tier)
@@ -292,6 +308,15 @@ def forbidden_constructs():
                     if FORBIDDEN.search(line):
                         hits.append("%s:%d: %s" % (p, ln, line.strip()))
     return hits
+
+
+def decode_hex_fields(line):
+    def d(m):
+        try:
+            return bytes.fromhex(m.group(0)).decode("utf-8")
+        except Exception:
+            return m.group(0)
+    return re.sub(r"(?<![0-9a-f])(?:[0-9a-f]{2})+(?![0-9a-f])", d, line)
 
 
 def load_known():
